@@ -1,0 +1,13 @@
+//go:build verif
+// +build verif
+
+package raft
+
+// verifPointFn is called at storage-mutation points when built with tag verif.
+var verifPointFn func(name string, args ...interface{})
+
+func verifPoint(name string, args ...interface{}) {
+	if f := verifPointFn; f != nil {
+		f(name, args...)
+	}
+}
